@@ -104,7 +104,7 @@ class OrderMonitor:
 
 
 CLIENT_MODES = ["tofu", "ca+tofu", "tofu", "clientcert+tofu"]
-SPELLINGS = ["127.0.0.1", "pinned.test", "127.0.0.1", "Pinned.Test", "127.0.0.1", "PINNED.TEST", "pinned.TEST"]
+SPELLINGS = ["127.0.0.1", "pinned.test", "localhost", "Pinned.Test", "127.0.0.1", "PINNED.TEST", "LocalHost", "pinned.TEST", "localhost"]
 
 
 def run(ctx):
